@@ -59,6 +59,37 @@ let run_chars (v : vt) (cs : n list) : (vt * func option) res * int =
   let r = go v cs in
   (r, !early)
 
+
+(* ---- exhaustive parser sweep (SW / RUN records) ---- *)
+let breakpoints : int list =
+  let pts = ref [ int_of_n hi_threshold ] in
+  List.iter
+    (fun (pats, _) ->
+      List.iter (fun ((_, lo), hi) -> pts := int_of_n lo :: (int_of_n hi + 1) :: !pts) pats)
+    feed_arms;
+  List.sort_uniq compare !pts
+
+let sweep_parser : parser0 option ref = ref None
+let sweep_state = ref 0
+let sweep_cells = ref 0
+let sweep_points = ref 0
+let sweep_runs = ref 0
+
+let feed_all (p : parser0) (cs : n list) : parser0 option =
+  List.fold_left
+    (fun acc c -> match acc with None -> None | Some p -> (match feedM p c with Model.Ok (p', _) -> Some p' | Panic _ -> None))
+    (Some p) cs
+
+let model_sig (p : parser0) (c : int) : str =
+  match feedM p (n_of_int c) with
+  | Panic s -> "PANIC " ^ string_of_int (int_of_nat s)
+  | Model.Ok (p', f) ->
+      let st = string_of_int (int_of_pstate p'.pst) in
+      (match f with
+       | None -> st ^ " -"
+       | Some (Print x) when int_of_n x = c -> st ^ " Print self"
+       | Some f -> st ^ " " ^ str_of_func f)
+
 let () =
   let file = Sys.argv.(1) in
   let ic = open_in file in
@@ -81,6 +112,7 @@ let () =
        | "CASE" ->
            let t = toks_of_line l in
            case_id := int t;
+           if !case_id mod 97 = 0 then Printf.printf "SAMPLE %s\n" l;
            if Sys.getenv_opt "DRIVER_DEBUG" <> None then (prerr_endline ("case " ^ string_of_int !case_id); flush stderr);
            step := 0;
            pre := None;
@@ -90,6 +122,7 @@ let () =
        | "C" ->
            let t = toks_of_line l in
            let cs = n_list_of_toks t in
+           if !case_id mod 97 = 0 && !step < 6 then Printf.printf "SAMPLE case=%d step=%d %s\n" !case_id !step l;
            pending_op := `Chars (cs, "-")
        | "FN" -> (
            let s = String.sub l 3 (String.length l - 3) in
@@ -236,6 +269,37 @@ let () =
                in
                if not ok then emit_div "Q" "geom" [ "public" ]
            | None -> ())
+       | "SW" ->
+           let t = toks_of_line l in
+           sweep_state := int t;
+           let cs = n_list_of_toks t in
+           sweep_parser := feed_all init_parser cs;
+           (match !sweep_parser with
+            | Some p when int_of_pstate p.pst = !sweep_state -> ()
+            | _ -> incr divs; Printf.printf "DIV case=-1 step=0 op=SW fn=sweep comps=sweep.intro state=%d\n" !sweep_state)
+       | "RUN" -> (
+           match !sweep_parser with
+           | None -> ()
+           | Some p ->
+               let sp = String.split_on_char ' ' l in
+               (match sp with
+                | _ :: lo :: hi :: rest ->
+                    let lo = int_of_string lo and hi = int_of_string hi in
+                    let sg = String.concat " " rest in
+                    incr sweep_runs;
+                    sweep_cells := !sweep_cells + (hi - lo + 1) - (if lo <= 0xD7FF && hi >= 0xE000 then 0x800 else 0);
+                    let pts = lo :: List.filter (fun b -> lo < b && b <= hi && not (b >= 0xD800 && b <= 0xDFFF)) breakpoints in
+                    List.iter
+                      (fun c ->
+                        incr sweep_points;
+                        let m = model_sig p c in
+                        if m <> sg then begin
+                          incr divs;
+                          Printf.printf "DIV case=-1 step=0 op=SW fn=sweep comps=sweep.cell state=%d char=%d model=[%s] impl=[%s]\n"
+                            !sweep_state c m sg
+                        end)
+                      pts
+                | _ -> ()))
        | "QPANIC" -> emit_div "Q" "query" [ "panic.impl" ]
        | "END" -> ()
        | _ -> ()
@@ -243,7 +307,7 @@ let () =
    with End_of_file -> ());
   close_in ic;
   let b = Buffer.create 1024 in
-  Buffer.add_string b (Printf.sprintf "{\"steps\": %d, \"divergences\": %d, \"distinct_nontrivial\": %d, \"counts\": {" !steps !divs !nontrivial);
+  Buffer.add_string b (Printf.sprintf "{\"steps\": %d, \"divergences\": %d, \"distinct_nontrivial\": %d, \"sweep_cells\": %d, \"sweep_runs\": %d, \"sweep_points\": %d, \"counts\": {" !steps !divs !nontrivial !sweep_cells !sweep_runs !sweep_points);
   let first = ref true in
   Hashtbl.iter
     (fun k v ->
